@@ -323,6 +323,14 @@ class FromField(Metric):
             I = np.where(interval.within(values_array[axis_pos]))[0]
             values = values[I]
 
+        if len(values) == 0:
+            # No cases fall in this bin. Aggregators that have no value for an
+            # empty array (min, max, range, change) raise instead of giving nan.
+            try:
+                return self.aggregator(values)
+            except (ValueError, IndexError):
+                return np.nan
+
         return self.aggregator(values)
 
     def label(self, variable):
